@@ -111,6 +111,7 @@ type ChanObj struct {
 	label    string
 	pending  *inflightOp // in-flight operation delivering its result on this chan
 	envRecv  bool        // environment receives from this (unbuffered) channel
+	sinkFn   Value       // callback invoked with every value the environment receives
 	gateLog  []string    // gate steps of the task that filled the buffer (logged at receive time)
 	final    bool        // final source: still fires when the step budget is exhausted
 }
